@@ -447,6 +447,7 @@ func main() {
 
 	// hostile definitions that can kill the process: each in a child process
 	runHostile(d)
+	runSweep(d)
 
 	// malformed stream
 	rm := r.Fork("malformed")
@@ -521,6 +522,17 @@ func runOne(d *driver, stream string, def []byte) {
 	if strings.HasPrefix(stream, "casevariant:") {
 		checkCaseVariant(d.res, strings.TrimPrefix(stream, "casevariant:"), def)
 		return
+	}
+	if strings.HasPrefix(stream, "legacy-valid:") {
+		// a definition the legacy editor produced: refusing it is a failure of its own narrow class
+		var merr error
+		pan := guard(func() { _, merr = migrations.MigrateToLatest(def, legacyCfg) })
+		d.res.OracleChecks++
+		if pan == "" && merr != nil {
+			d.res.Fail("legacy-valid-rejected:"+strings.TrimPrefix(stream, "legacy-valid:"), failInput(stream, def, nil), "MigrateToLatest refuses a definition the legacy editor produced")
+			return
+		}
+		stream = "legacy"
 	}
 	switch stream {
 	case "legacy":
